@@ -6,7 +6,7 @@ DS_ATTRS = {"title": "demo", "source": ["x"]}
 VAR_ATTRS = {"units": "K"}
 
 OPS = ("take-label", "take-position", "sel", "isel", "ix", "loc", "mean", "sum", "std", "var", "median", "take_axis", "sort_axis",
-       "reindex_axis", "interp_axis", "add-dataset", "mul-scalar", "stack_ds", "concatenate_ds")
+       "reindex_axis", "interp_axis", "add-dataset", "sub-dataset-other-labels", "mul-scalar", "rsub-scalar", "stack_ds", "concatenate_ds")
 CARRIES_DS_ATTRS = ("take-label", "take-position", "sel", "isel", "ix", "loc", "take_axis", "sort_axis", "reindex_axis", "interp_axis")
 
 
@@ -132,6 +132,18 @@ class DatasetOps(Contract):
             ds2, ref2 = self._build(env)
             out = ds + ds2
             expect = {k: ref[k] + ref2[k] for k in ref}
+        elif op == "sub-dataset-other-labels":
+            # the second dataset has its OWN x labels (shifted by half a step: partly shared, partly new)
+            ds2, ref2 = self._build(env)
+            other = np.concatenate([X[:1], X + 0.25])[:len(X)]
+            ds2.axes["x"].values = other
+            for k in has_x:
+                ref2[k].axes["x"].values = other.copy()
+            out = ds - ds2
+            expect = {k: ref[k] - ref2[k] for k in ref}
+        elif op == "rsub-scalar":
+            out = 2.0 - ds
+            expect = {k: 2.0 - ref[k] for k in ref}
         elif op == "mul-scalar":
             out = ds * 2.0
             expect = {k: ref[k] * 2.0 for k in ref}
